@@ -375,7 +375,7 @@ def trace_file(defn, events, theta, lims, runs, path):
            "lims": [[0 if lo is None else 1, 0 if lo is None else int(lo), 0 if hi is None else 1, 0 if hi is None else int(hi)]
                     for lo, hi in lims],
            "closed": all(t["ty"] == "T" for e in events for t in e["trs"]),
-           "runs": runs}
+           "runs": [dict(r, gridonly=bool(r.get("gridonly", False))) for r in runs]}
     with open(path, "w") as f:
         json.dump(doc, f)
     return doc
